@@ -394,6 +394,38 @@ class Block:
         return "<B%d of %s>" % (self.id, self.func.name)
 
 
+_PINNED_NAMES = None
+
+
+def _pinned_names():
+    global _PINNED_NAMES
+    if _PINNED_NAMES is None:
+        p = os.path.join(os.path.dirname(os.path.abspath(__file__)), "names.json")
+        try:
+            with open(p) as f:
+                _PINNED_NAMES = json.load(f)
+        except (OSError, ValueError):
+            _PINNED_NAMES = {}
+    return _PINNED_NAMES
+
+
+def decl_signature(f):
+    """[[kind, type, name]] of the function's parameters and locals in declaration order."""
+    sig = [["param", p.get("ty", ""), p["name"]] for p in f.params]
+    seen = set(p["id"] for p in f.params)
+    decls = []
+    for b in f.blocks.values():
+        for e in b.elems:
+            if e.cls == "DeclStmt" and e.decls:
+                for d in e.decls:
+                    if isinstance(d, dict) and "id" in d and d["id"] not in seen:
+                        seen.add(d["id"])
+                        decls.append((e.line, d["id"], d))
+    for _, _, d in sorted(decls, key=lambda x: (x[0], x[1])):
+        sig.append(["local", d.get("ty", ""), d["name"]])
+    return sig
+
+
 class Func:
     def __init__(self, unit, d, repo):
         self.unit = unit
@@ -418,6 +450,9 @@ class Func:
             for s in b.succs:
                 if s is not None:
                     self.blocks[s].preds.append(b.id)
+        self.renamed = {}
+        if not os.environ.get("VERIF_NO_RENAME"):
+            self._restore_names()
         self._canon_updates()
         self._dom = None
         self._pdom = None
@@ -425,6 +460,47 @@ class Func:
 
     def elem(self, ref):
         return self.blocks[ref[0]].elems[ref[1]]
+
+    def _restore_names(self):
+        """A parameter or local that was merely renamed gets the name it has on the pinned tree back (sa/names.json): when
+        the function declares the same kinds and types in the same order and only names differ, rules that identify a
+        variable by its name still find it.  Any other difference (a declaration added, removed or retyped) disables this
+        for the function, and a rule that cannot find its variable answers `analysis broken` as before."""
+        pinned = (_pinned_names().get(self.file) or {}).get(self.symbol)
+        if not pinned:
+            return
+        cur = decl_signature(self)
+        if len(cur) != len(pinned) or any(a[0] != b[0] or a[1] != b[1] for a, b in zip(cur, pinned)):
+            return
+        if all(a[2] == b[2] for a, b in zip(cur, pinned)):
+            return
+        # ids in the same order as decl_signature
+        ids = [p["id"] for p in self.params]
+        seen = set(ids)
+        decls = []
+        for b in self.blocks.values():
+            for e in b.elems:
+                if e.cls == "DeclStmt" and e.decls:
+                    for d in e.decls:
+                        if isinstance(d, dict) and "id" in d and d["id"] not in seen:
+                            seen.add(d["id"])
+                            decls.append((e.line, d["id"]))
+        ids += [i for _, i in sorted(decls)]
+        ren = {i: old[2] for i, old, new in zip(ids, pinned, cur) if old[2] != new[2]}
+        if len(set(x[2] for x in pinned)) != len(pinned):
+            return
+        self.renamed = {new[2]: old[2] for old, new in zip(pinned, cur) if old[2] != new[2]}
+        for p in self.params:
+            if p["id"] in ren:
+                p["name"] = ren[p["id"]]
+        for b in self.blocks.values():
+            for e in b.elems:
+                if e.decl and e.decl.get("kind") in ("local", "param") and e.decl.get("id") in ren:
+                    e.decl = dict(e.decl, name=ren[e.decl["id"]])
+                if e.cls == "DeclStmt" and e.decls:
+                    for d in e.decls:
+                        if isinstance(d, dict) and d.get("id") in ren:
+                            d["name"] = ren[d["id"]]
 
     def _canon_updates(self):
         """One spelling for update statements, so that no rule depends on which one the source uses:
